@@ -234,6 +234,10 @@ class GenericSys:
             self._plain[i] = lambda qty, to_unit, h=h: h.convert(qty, to_unit)
         return self._plain[i]
 
+    def answer(self, i, a, b):
+        g = self.tables[i].get((a, b))
+        return None if g is None else g(self.PROBE)
+
     def key(self):
         return (tuple(self.lst),)
 
@@ -287,9 +291,8 @@ class GenericSys:
                     continue
                 exp = None
                 for i in reversed(self.lst):
-                    g = self.tables[i].get((a, b))
-                    if g is not None:
-                        exp = g(self.PROBE)
+                    exp = self.answer(i, a, b)
+                    if exp is not None:
                         break
                 q = self.cls(self.PROBE, self.units[a])
                 try:
@@ -310,9 +313,48 @@ class GenericSys:
         return out
 
 
+class TableSys(GenericSys):
+    """the same registry walk with quantity.converter.TableConverter
+    instances (factor, offset rows; a missing direction is answered by
+    inverting the other one)"""
+    ROWS = [
+        {(0, 1): (2, 0)},
+        {(0, 1): (3, -12), (0, 2): (1, 1)},
+        {(a, b): (10, 0) for a in range(3) for b in range(3) if a != b},
+        {},
+    ]
+
+    def __init__(self, n):
+        GenericSys.__init__(self, n)
+        from quantity.converter import TableConverter
+        u = self.units
+        self.rows = self.ROWS[:n]
+        self.convs = []
+        for i, rows in enumerate(self.rows):
+            if i % 2:
+                self.convs.append(TableConverter(
+                    [(u[a], u[b], f, o) for (a, b), (f, o) in rows.items()]))
+            else:
+                self.convs.append(TableConverter(
+                    {(u[a], u[b]): fo for (a, b), fo in rows.items()}))
+
+    def fn(self, i):
+        return self.convs[i]
+
+    def answer(self, i, a, b):
+        rows = self.rows[i]
+        if (a, b) in rows:
+            f, o = rows[(a, b)]
+            return self.PROBE * f + o
+        if (b, a) in rows:
+            f, o = rows[(b, a)]
+            return (self.PROBE - o) / F(f)
+        return None
+
+
 # ---------------------------------------------------------------------------
 
-SYSTEMS = {'money': MoneySys, 'generic': GenericSys}
+SYSTEMS = {'money': MoneySys, 'generic': GenericSys, 'table': TableSys}
 
 
 def execute(sysname, n, hist):
@@ -518,11 +560,13 @@ def run(tier, seed):
     total = Stats()
     if tier == 'thorough':
         plan = [('money', 3, 8, True), ('money', 2, 5, False),
-                ('generic', 4, 8, True), ('generic', 3, 5, False)]
+                ('generic', 4, 8, True), ('generic', 3, 5, False),
+                ('table', 4, 8, True), ('table', 3, 5, False)]
         pdepth = 3
     else:
         plan = [('money', 2, 6, True), ('money', 2, 3, False),
-                ('generic', 3, 6, True), ('generic', 3, 3, False)]
+                ('generic', 3, 6, True), ('generic', 3, 3, False),
+                ('table', 3, 6, True), ('table', 3, 3, False)]
         pdepth = 2
     counts = {}
     for sysname, n, depth, merge in plan:
@@ -544,7 +588,8 @@ def run(tier, seed):
              "executed in a fork; plus all histories without merging to a "
              "smaller depth; generic type: {register fi, remove fi} over "
              "callables answering different unit pairs (one returns 0, one "
-             "None); nested with-programs generated and executed. "
+             "None) and, as a third system, over TableConverter instances "
+             "(mapping and list form, inverted rows); nested with-programs generated and executed. "
              "non-trivial = history longer than 1 / program with a block. "
              + '; '.join(f"{k}: {v} states" for k, v in counts.items()),
         level_text="explicit-state model checking of the real registry "
